@@ -3,7 +3,8 @@ EXTENDS Startup, Json
 A(t, n, x) == [k |-> "add", ts |-> t, n |-> n, x |-> x]
 G(t, n, x) == [k |-> "get", ts |-> <<t>>, n |-> n, x |-> x]
 \* C05 family: publications and non-optional lookups over two keys
-Ops5 == {A(<<"A">>, "n", "res2"), A(<<"B">>, "n", "res"), G("A", "n", "wait"), G("B", "n", "wait")}
+Svc == [k |-> "svc", ts |-> <<>>, n |-> "", x |-> ""]
+Ops5 == {A(<<"A">>, "n", "res2"), A(<<"B">>, "n", "fac"), G("A", "n", "wait"), G("B", "n", "wait"), Svc}
 \* C06 family: matching and non-matching publications of every kind against every kind of lookup of (A, m)
 Ops6Add == {A(<<"A">>, "m", "res"), A(<<"A">>, "m", "res2"), A(<<"A">>, "n", "res"), A(<<"B">>, "m", "res"), A(<<"A">>, "m", "fac"), A(<<"A">>, "m", "afac"),
             A(<<"A", "B">>, "m", "res"), A(<<"A">>, "default", "res")}
